@@ -177,7 +177,13 @@ def convOutI (o : Opts) (lim : Limit) (n : Nat) : Obj → Except Err (Obj × Nat
         | .error e => .error e
       else .error .tooLarge
   | .seq _ k l =>
-      if k.isSetLike then
+      if k.isView then
+        if lim.admits l.length then
+          match convElemsI o lim false none (n + 1) l with
+          | .ok p => .ok (.seq n .list p.1, p.2)                                 -- keys() / items(): `list(...)`
+          | .error e => .error e
+        else .error .tooLarge
+      else if k.isSetLike then
         if lim.admits l.length then
           match convElemsI o lim (!o.s2l) none (n + 1) l with
           | .ok p => .ok (.seq n (if o.s2l then .list else .set) p.1, p.2)      -- `set_type(...)`
